@@ -387,6 +387,9 @@ def argmin(self, axis=None, skipna=False):
     res = apply_along_axis(obj, 'argmin', axis=idx, skipna=skipna)
 
     # along axis: single axis value
+    if axis is not None and not hasattr(res, 'axes'): # 1-D array: res is a position
+        return obj.axes[idx].values[res]
+
     if axis is not None: # res is DimArray
         res.values = obj.axes[idx].values[res.values] 
         return res
@@ -410,6 +413,9 @@ def argmax(self, axis=None, skipna=False):
     res = apply_along_axis(obj, 'argmax', axis=idx, skipna=skipna)
 
     # along axis: single axis value
+    if axis is not None and not hasattr(res, 'axes'): # 1-D array: res is a position
+        return obj.axes[idx].values[res]
+
     if axis is not None: # res is DimArray
         res.values = obj.axes[idx].values[res.values] 
         return res
